@@ -463,6 +463,7 @@ func compileStruct(typ *runtime.Type, structName, fieldName string, structTypeTo
 	foldFieldMap := map[string]*structFieldSet{}
 	filtered, ambiguous := filterDuplicatedFields(allFields)
 	structDec.ambiguousFields = ambiguous
+	structDec.orderedFields = filtered
 	for _, set := range filtered {
 		fieldMap[set.key] = set
 		lower := strings.ToLower(set.key)
@@ -485,14 +486,8 @@ func compileStruct(typ *runtime.Type, structName, fieldName string, structTypeTo
 // fields d dropped because their name is ambiguous in d ( they are ambiguous in every struct
 // that embeds d as well, and hide the fields of that name that lie deeper ).
 func (d *structDecoder) promotedFields() []*structFieldSet {
-	fields := make([]*structFieldSet, 0, len(d.fieldMap)+len(d.ambiguousFields))
-	for k, v := range d.fieldMap {
-		if k != v.key {
-			// the lower-case alias of a member, not a member name
-			continue
-		}
-		fields = append(fields, v)
-	}
+	fields := make([]*structFieldSet, 0, len(d.orderedFields)+len(d.ambiguousFields))
+	fields = append(fields, d.orderedFields...)
 	return append(fields, d.ambiguousFields...)
 }
 
